@@ -1522,7 +1522,11 @@ def main(opts) -> int:
     sjobs = sweep_jobs(root, groups, rc, tier["sweeps"], hot_info, tier["hot_cap"], tier.get("hot3_cap", 400),
                        tier.get("cold_cap", 200))
     seeded = [{"root": root, "idx": i} for i in range(runs)]
-    jobs = seeded[:16] + sjobs + seeded[16:]  # a wall-cap truncation must not starve either kind
+    # a wall-cap truncation must not starve either kind: the remaining seeded schedules are spread evenly over the
+    # sweep schedules (a changed tree can multiply the number of targeted sweeps)
+    # ... and the sweep strata are mixed (seeded order), so that a truncated batch has sampled every stratum
+    mixed = sorted(sjobs, key=lambda j_: core.derive(root, "sweep-order", j_["idx"]))
+    jobs = seeded[:16] + core.interleave(mixed, seeded[16:])
     results, truncated = core.pool_map(job, jobs, wall_cap=wall)
     herrs += [f"run {jobs[i].get('idx')}: {r['harness_error'][:600]}" for i, r in sorted(results.items())
               if "harness_error" in r]
